@@ -224,6 +224,9 @@ def e1_gen_api(ctx):
     tlc_mc(ctx, "GenAPI", "MC_GenAPI.cfg" if ctx.quick else "MC_GenAPI_thorough.cfg")
     tlc_mc(ctx, "GenAPI", "MC_GenAPI_dev_MergeTouchesBitmap.cfg", workers=4, expect_violation="BitmapsImmutable")
     tlc_mc(ctx, "GenAPI", "MC_GenAPI_dev_SharedEmptyStats.cfg", workers=8, expect_violation="StatsIndependent")
+    if not ctx.quick:
+        tlc_mc(ctx, "GenAPI", "MC_GenAPI_dev_DvOpenEditsList.cfg", workers=4, expect_violation="FieldListsImmutable")
+        tlc_mc(ctx, "GenAPI", "MC_GenAPI_dev_CloseKillsEmptyIts.cfg", workers=8, expect_violation="DitsIndependent")
 
 
 def e2_gen_api(ctx, num):
@@ -237,7 +240,9 @@ def e2_gen_api(ctx, num):
     behs = lift.dedupe(behs)
     rare = [b for b in behs if any(h["op"] == "merge" and any(h["drops"]) for h in b["hist"])]
     rare2 = [b for b in behs if any(h["op"] == "stats_add" for h in b["hist"])]
-    pick = rare[:max(num // 3, 4)] + rare2[:max(num // 6, 4)]
+    rare3 = [b for b in behs if any(h["op"] == "dit_close" for h in b["hist"]) and sum(1 for h in b["hist"] if h["op"] == "dit_open") >= 2]
+    rare4 = [b for b in behs if sum(1 for h in b["hist"] if h["op"] == "dv_open") >= 2]
+    pick = rare[:max(num // 3, 4)] + rare2[:max(num // 6, 4)] + rare3[:max(num // 8, 3)] + rare4[:max(num // 8, 3)]
     keys = set(json.dumps(b, sort_keys=True) for b in pick)
     behs = pick + [b for b in behs if json.dumps(b, sort_keys=True) not in keys][:num - len(pick)]
     run_scenarios(ctx, [lift.lift_api(b, i) for i, b in enumerate(behs)], "e2api", perfile=10, shards=4)
